@@ -448,6 +448,12 @@ func Run(t *testing.T, bind *Binding, spec *RunSpec) (obs *model.Obs) {
 		subs: map[string]any{}, freshN: map[string]int{}, lateDone: map[string]bool{}, hands: map[string]*simrt.Handle{}, obs: obs, names: map[string]string{}, scans: map[string]*simrt.TagScanner{}, initLookups: map[string]map[string][]string{}, loaderHands: map[string]*simrt.Handle{}}
 	syslog.SetLogger(simrt.SilentLogger{})
 	simrt.FormatLogs = spec.Parallel
+	if spec.Parallel && StockLoggerProgram(spec.Prog) {
+		// what the container's goroutines log concurrently goes through the library's own logger
+		// (syslog caches the logger per prefix for the life of the process: the driver gives one
+		// worker process programs of one parity only)
+		syslog.SetLogger(syslog.New(syslog.LvError))
+	}
 
 	defer func() {
 		// the bubble ends with a deadlock panic if goroutines stay blocked
@@ -707,6 +713,21 @@ func (e *env) main(inClose, closeReturned *bool) {
 		for _, id := range p.Refuse {
 			if inst := p.InstByID(id); inst != nil {
 				ctx.Armed["scan:"+p.Scanners[0].ID+"@"+p.NameOf(inst)+"#*"] = true
+			}
+		}
+	}
+	// configuration holders that name their own section: the application creates them
+	for _, inst := range p.Instances {
+		t := p.TypeByName(inst.Type)
+		if t.Zero || t.Local {
+			continue
+		}
+		for _, cf := range t.Config {
+			if cf.Menu != "typePrefixDyn" {
+				continue
+			}
+			if f := fieldAt(e.objs[inst.ID], t.Name, cf.Embed, cf.Field); f.IsValid() && f.CanSet() {
+				f.Set(reflect.ValueOf(&simrt.CfgPD{Section: cf.Keys[0]}))
 			}
 		}
 	}
@@ -1158,6 +1179,18 @@ func (e *env) main(inClose, closeReturned *bool) {
 	}
 	obs.PathSig = h.Sum64()
 	_ = sort.Strings
+}
+
+// StockLoggerProgram: racesim runs of programs with an odd index keep the library's own logger
+// (error level, stderr) instead of the silent one.
+func StockLoggerProgram(p *sdl.Program) bool {
+	n := 0
+	for _, c := range p.ID {
+		if c >= '0' && c <= '9' {
+			n = n*10 + int(c-'0')
+		}
+	}
+	return n%2 == 1
 }
 
 func firstLine(s string) string {
